@@ -1,6 +1,7 @@
 pub mod behave;
 pub mod c01;
 pub mod c03;
+pub mod c04;
 pub mod c06;
 pub mod c07;
 pub mod c08;
@@ -8,6 +9,7 @@ pub mod c09;
 pub mod c13;
 pub mod c16;
 pub mod c17;
+pub mod c18;
 pub mod findings;
 
 use crate::common::{Report, Tier};
@@ -16,6 +18,7 @@ pub fn run(id: &str, tier: Tier) -> Option<Report> {
     Some(match id {
         "C01" => c01::run(tier),
         "C03" => c03::run(tier),
+        "C04" => c04::run(tier),
         "C06" => c06::run(tier),
         "C07" => c07::run(tier),
         "C08" => c08::run(tier),
@@ -23,6 +26,7 @@ pub fn run(id: &str, tier: Tier) -> Option<Report> {
         "C13" => c13::run(tier),
         "C16" => c16::run(tier),
         "C17" => c17::run(tier),
+        "C18" => c18::run(tier),
         _ => return None,
     })
 }
